@@ -500,6 +500,15 @@ def run(res, tier):
         esc = const_edges(f, fx, True) | not_small_edges(f)
         ev = store_loops(f, inline_resets(f)) + [c for c in f.walk() if c['k'] == 'CXXMemberCallExpr' and (c.get('q') or '').endswith('::Clear')
                                                   and (c.receiver() is None or A.strip_casts(c.receiver())['k'] == 'CXXThisExpr')]
+        # a call of a private helper that resets the inline slots whenever the buffer is the inline one (every path through it takes a not-inline edge or passes a reset) is a reset event
+        for c_ in f.walk():
+            if c_.is_call() and (c_['k'] != 'CXXMemberCallExpr' or c_.receiver() is None or A.strip_casts(c_.receiver())['k'] == 'CXXThisExpr'):
+                h_ = IP.helper_of(fx, c_, r'^muscle::Queue::')
+                if h_ is not None and h_ is not f and (inst + '::') in h_.name:
+                    rs_ = store_loops(h_, inline_resets(h_))
+                    tp_ = set(P.pos_of(h_, r_) for r_ in rs_ if P.pos_of(h_, r_))
+                    if tp_ and C.must_pass(h_, (h_.entry, -1), tp_, avoid_edges=const_edges(h_, fx, True) | not_small_edges(h_))[0]:
+                        ev.append(c_)
         # a private helper: what every one of its call sites knows about the receiver's buffer holds at its entry (a block that was extracted keeps the facts of the place it was cut from)
         entry_heap = False
         cs = IP.call_sites_of(fx, f, r'^muscle::Queue::')
